@@ -1,4 +1,4 @@
-import CedarVerif.Lemmas.SyntaxMain
+import CedarVerif.Lemmas.SyntaxChain
 /-
 C05 — policy text → AST → text round trip.  Property theorems (every `theorem` here is an obligation).
 Model: Cedar/Syntax/{Token,Escape,Print,Parse}.lean.
@@ -49,7 +49,7 @@ def validTypeName (ty : String) : Bool :=
   (ty.splitOn "::").all (fun c => isIdentChars c.toList && unreservedIdent c)
 
 def strictSortedKeys : List (String × Expr) → Bool
-  | (k1, v1) :: (k2, v2) :: rest => decide (k1 < k2) && strictSortedKeys ((k2, v2) :: rest)
+  | (k1, _) :: (k2, v2) :: rest => decide (k1 < k2) && strictSortedKeys ((k2, v2) :: rest)
   | _ => true
 
 mutual
@@ -87,117 +87,53 @@ end
 def ParsePrintFull : Prop :=
   ∀ (mustEscape : Char → Bool) (e : Expr), ParserImage e = true → Parse.expr (Print.expr mustEscape e) = some e
 
-theorem paren_length_ge (b : Bool) (ts : List Token) : ts.length ≤ (paren b ts).length := by
-  cases b <;> simp [paren] <;> omega
-
-theorem fsize_le_length (me : Char → Bool) : ∀ k e, fsize e ≤ k → inFrag e = true → fsize e ≤ (printE me e).length := by
-  intro k
-  induction k with
-  | zero => intro e hk; have := fsize_pos e; omega
-  | succ k ih =>
-    intro e hk hf
-    cases e
-    case lit p => cases p <;> simp [fsize, printE] ; split <;> simp
-    case var v => simp [fsize, printE]
-    case ite c t e' =>
-      simp only [inFrag, Bool.and_eq_true] at hf
-      simp only [fsize] at hk ⊢
-      have h1 := ih c (by omega) hf.1.1
-      have h2 := ih t (by omega) hf.1.2
-      have h3 := ih e' (by omega) hf.2
-      simp only [printE, List.length_cons, List.length_append]
-      omega
-    case and a b =>
-      simp only [inFrag, Bool.and_eq_true] at hf
-      simp only [fsize] at hk ⊢
-      have h1 := ih a (by omega) hf.1.1.1
-      have h2 := ih b (by omega) hf.1.1.2
-      have p1 := paren_length_ge (needsParens a && !isAnd a) (printE me a)
-      have p2 := paren_length_ge (needsParens b) (printE me b)
-      simp only [printE, List.length_cons, List.length_append]
-      omega
-    case or a b =>
-      simp only [inFrag, Bool.and_eq_true] at hf
-      simp only [fsize] at hk ⊢
-      have h1 := ih a (by omega) hf.1.1.1
-      have h2 := ih b (by omega) hf.1.1.2
-      have p1 := paren_length_ge (needsParens a && !isOr a) (printE me a)
-      have p2 := paren_length_ge (needsParens b) (printE me b)
-      simp only [printE, List.length_cons, List.length_append]
-      omega
-    case unaryApp op a =>
-      simp only [fsize] at hk ⊢
-      cases op with
-      | not =>
-        simp only [inFrag] at hf
-        have h1 := ih a (by omega) hf
-        have p1 := paren_length_ge (needsParens a) (printE me a)
-        simp only [printE, List.length_cons]
-        omega
-      | neg =>
-        simp only [inFrag] at hf
-        have h1 := ih a (by omega) hf
-        simp only [printE, List.length_cons, List.length_append, List.length_nil]
-        omega
-      | isEmpty => simp [inFrag] at hf
-    case binaryApp op a b =>
-      simp only [inFrag, Bool.and_eq_true] at hf
-      simp only [fsize] at hk ⊢
-      have h1 := ih a (by omega) hf.1.1.2
-      have h2 := ih b (by omega) hf.1.2
-      have p2 := paren_length_ge (needsParens b) (printE me b)
-      have p1 := paren_length_ge (needsParens a) (printE me a)
-      have p1' := paren_length_ge (needsParens a && !isBin op a) (printE me a)
-      have hop := hf.1.1.1
-      cases op <;> simp [infixOp] at hop <;> simp only [printE, List.length_cons, List.length_append] <;> omega
-    all_goals (simp [inFrag] at hf)
-
-/-- `parse_print` on the fragment `inFrag` (see its doc-string): literals incl. both i64 boundary values and
-arbitrary strings, variables, `!`, unary minus (`-(e)`, negative literals `(-n)`), `* + - == < <= in && ||`,
-`if then else`, arbitrarily nested.  Missing towards `ParsePrintFull`: unparenthesised left-nested chains
-(`a + b + c`), member access / method and function calls, `has`, `like`, `is`, entity literals, sets, records, slots. -/
-theorem parse_print_partial (mustEscape : Char → Bool) (e : Expr) (h : inFrag e = true) :
+/-- `parse_print` on the fragment `inFrag2` (see its doc-string): literals incl. both i64 boundary values and
+arbitrary strings (any escape table), variables, `!`, unary minus (`-(e)`, negative literals `(-n)`),
+`* + - == < <= in && ||` with the unparenthesised left-nested chains (`a + b + c`, `a - b - c`, `a && b && c` …),
+`if then else`, arbitrarily nested.  Missing towards `ParsePrintFull`: member access / method and function calls,
+`has`, `like`, `is`, entity literals, sets, records, slots. -/
+theorem parse_print_partial (mustEscape : Char → Bool) (e : Expr) (h : inFrag2 e = true) :
     Parse.expr (Print.expr mustEscape e) = some e := by
   unfold Parse.expr Print.expr
-  obtain ⟨s, h1, h2⟩ := parse_print_aux mustEscape (fsize e) e (Nat.le_refl _) h (printE mustEscape e).length
-    (fsize_le_length mustEscape _ e (Nat.le_refl _) h) [] rfl
+  obtain ⟨s, h1, h2⟩ := (parse_print_aux2 mustEscape (fsize e) e (Nat.le_refl _) h (printE mustEscape e).length
+    (fsize_le_length mustEscape _ e (Nat.le_refl _) h)).top [] rfl
   simp only [List.append_nil] at h1
   rw [h1]
   exact h2
 
 /-- every fragment expression is in the parser's image, so the partial theorem is an instance of the full statement -/
-theorem inFrag_parserImage : ∀ k e, fsize e ≤ k → inFrag e = true → ParserImage e = true := by
+theorem inFrag_parserImage : ∀ k e, fsize e ≤ k → inFrag2 e = true → ParserImage e = true := by
   intro k
   induction k with
   | zero => intro e hk; have := fsize_pos e; omega
   | succ k ih =>
     intro e hk hf
     cases e
-    case lit p => cases p <;> simp_all [inFrag, ParserImage]
+    case lit p => cases p <;> simp_all [inFrag2, ParserImage]
     case var v => rfl
     case ite c t e' =>
-      simp only [inFrag, Bool.and_eq_true] at hf
+      simp only [inFrag2, Bool.and_eq_true] at hf
       simp only [fsize] at hk
       simp [ParserImage, ih c (by omega) hf.1.1, ih t (by omega) hf.1.2, ih e' (by omega) hf.2]
     case and a b =>
-      simp only [inFrag, Bool.and_eq_true] at hf
+      simp only [inFrag2, Bool.and_eq_true] at hf
       simp only [fsize] at hk
-      simp [ParserImage, ih a (by omega) hf.1.1.1, ih b (by omega) hf.1.1.2, hf.1.2]
+      simp [ParserImage, ih a (by omega) hf.1.1, ih b (by omega) hf.1.2, hf.2]
     case or a b =>
-      simp only [inFrag, Bool.and_eq_true] at hf
+      simp only [inFrag2, Bool.and_eq_true] at hf
       simp only [fsize] at hk
-      simp [ParserImage, ih a (by omega) hf.1.1.1, ih b (by omega) hf.1.1.2, hf.1.2]
+      simp [ParserImage, ih a (by omega) hf.1.1, ih b (by omega) hf.1.2, hf.2]
     case unaryApp op a =>
       simp only [fsize] at hk
-      cases op <;> simp only [inFrag] at hf
+      cases op <;> simp only [inFrag2] at hf
       · simp [ParserImage, ih a (by omega) hf]
       · simp [ParserImage, ih a (by omega) hf]
       · simp at hf
     case binaryApp op a b =>
-      simp only [inFrag, Bool.and_eq_true] at hf
+      simp only [inFrag2, Bool.and_eq_true] at hf
       simp only [fsize] at hk
-      simp [ParserImage, ih a (by omega) hf.1.1.2, ih b (by omega) hf.1.2]
-    all_goals (simp [inFrag] at hf)
+      simp [ParserImage, ih a (by omega) hf.1.2, ih b (by omega) hf.2]
+    all_goals (simp [inFrag2] at hf)
 
 -- non-vacuity: `if !(-(1) - (-9223372036854775808) < principal * 2) && true || "a\"b" == context then -5 else 7 in resource`
 def sample : Expr :=
@@ -208,9 +144,21 @@ def sample : Expr :=
        (.lit (.int (-5)))
        (.binaryApp .mem (.lit (.int 7)) (.var .resource))
 
-example : inFrag sample = true := by decide
+example : inFrag2 sample = true := by decide
 example : Parse.expr (Print.expr (fun c => c.toNat ≥ 127) sample) = some sample := parse_print_partial _ _ (by decide)
 example : Print.expr (fun _ => false) (.binaryApp .add (.lit (.int (-1))) (.binaryApp .mul (.lit (.int 2)) (.var .context))) =
     [.lparen, .minus, .num 1, .rparen, .plus, .lparen, .num 2, .star, .ident "context", .rparen] := by decide
+
+-- left-nested chains are printed without parentheses and read back with the same association
+def chainSample : Expr :=
+  .and (.and (.binaryApp .less (.binaryApp .sub (.binaryApp .sub (.lit (.int 1)) (.lit (.int 2))) (.lit (.int 3)))
+                               (.binaryApp .sub (.lit (.int 1)) (.binaryApp .sub (.lit (.int 2)) (.lit (.int 3)))))
+             (.var .principal))
+       (.or (.or (.var .action) (.var .resource)) (.lit (.bool false)))
+example : Print.expr (fun _ => false) chainSample =
+    [.lparen, .lparen, .num 1, .minus, .num 2, .minus, .num 3, .rparen, .lt,
+       .lparen, .num 1, .minus, .lparen, .num 2, .minus, .num 3, .rparen, .rparen, .rparen,
+     .andand, .ident "principal", .andand, .lparen, .ident "action", .oror, .ident "resource", .oror, .ident "false", .rparen] := by decide
+example : Parse.expr (Print.expr (fun _ => false) chainSample) = some chainSample := parse_print_partial _ _ (by decide)
 
 end Cedar.C05
